@@ -19,7 +19,8 @@ LEVEL_TEXT = ("(a) All grammar keywords (frozen list of 87 + whatever the workin
               " Identifier forms also include delimited names that contain their own doubled delimiter or a dash, and the words ASC / DESC (compared by value in grammar actions) in lower and capitalised spelling as column names inside key lists."
               " Keyword-named columns are also placed after a column that carries a CHECK clause."
               " Since wave 5 there are 17 naming positions (the in-table KEY name (col) clause) and 21 identifier forms, incl. names that begin with '#', with the letters array / Arrays / ARRAY_, keyword-shaped names per position, a quoted name containing a dot."
-              ' Defect hunt: bracket / backtick names that contain a blank (known finding).')
+              ' Defect hunt: bracket / backtick names that contain a blank (known finding).'
+              ' Wave 6: names whose inner text ends with the doubled delimiter ([Amount[USD]]], `x```).')
 LEVEL_NOTE = ("Identifier forms: lower, Mixed, UPPER, x_1, \"Dq\", `bt`, [br]. Spelling is identical between a declaration and the clauses that "
               "cite it. The plain-name result is itself validated against explicit JSON paths once per run.")
 RULE = ("case = (keyword, case, position, context, listing) or (form assignment to naming positions, normalize flag); non-trivial = the "
